@@ -258,6 +258,16 @@ class ParseContext:
 
     return attr_names, attr_chain
 
+  def provides(self, selector):
+    """Whether `selector` resolves through this context's own imports."""
+    if not self._dynamic_registration:
+      return False
+    try:
+      self._resolve_selector(selector)
+    except (NameError, AttributeError):
+      return False
+    return True
+
   def _import_source(
       self,
       import_statement: Optional[config_parser.ImportStatement],
@@ -848,8 +858,11 @@ def _validate_skip_unknown(skip_unknown):
 def _should_skip(selector, skip_unknown):
   """Checks whether `selector` should be skipped (if unknown)."""
   _validate_skip_unknown(skip_unknown)
-  if _REGISTRY.matching_selectors(selector):
-    return False  # Never skip known configurables.
+  if (_REGISTRY.matching_selectors(selector) or
+      _parse_context().provides(selector)):
+    # Never skip known configurables, nor (under dynamic registration) names
+    # that the file's own imports provide: those are registered on first use.
+    return False
   if isinstance(skip_unknown, (list, tuple, set)):
     return selector in skip_unknown
   return skip_unknown  # Must be a bool by validation check.
